@@ -21,12 +21,13 @@ ASSUME = [
     "stage 2 theorems hold for every class oracle that does not classify U+FFFD as space/letter/digit (true of Go's"
     " tables; checked on every generated case) and for every field mapping",
     "lexer-to-parser glue abstracts values: a keyword/path literal and a range are one leaf, a text literal is the AND"
-    " of its words, in(..) is the parenthesised OR of its members, a pipe section ends the token list; term contents,"
+    " of its words, in(..) is the parenthesised OR of its members, a well-formed pipe section is the terminator token TPipe (the token-level parser folds its OR/AND accumulators there as at end of input); term contents,"
     " case folding of values and pipe field names are not modelled",
     "raw-byte totality of the legacy parser (ParseQuery) and of ParseAggregationFilter is established by fuzzing only (PARTIAL)",
 ]
 RULE = ("exhaustive: all boolean trees up to the tier's node bound over 3 atoms x minimal/full parentheses x "
-        "SeqQL/legacy parser; random deeper expressions with in(..)/text words; mutated token lists; "
+        "SeqQL/legacy parser, and (SeqQL) each of them again followed by a pipe section with the same truth-table spec; "
+        "random deeper expressions with in(..)/text words (SeqQL: also with a pipe section); mutated token lists; "
         "propagateNot on random trees; stage 2: fixed hostile strings + grammar-derived/mutated/fragment-built raw strings "
         "(three quote kinds, escapes, comments, invalid UTF-8, U+E000, unterminated quotes with escaped quote characters) "
         "through the real lexer and ParseSeqQL under full/nil/empty mapping vs the byte-level model (token texts, flags, "
